@@ -148,6 +148,8 @@ def generate(run_seed: int, cfg: Dict[str, Any]) -> Dict[str, Any]:
         style = ro.choice(STYLES_SINGLE if single else STYLES_MULTI)
         variant = 0 if style in ("ex", "ex_descr") else ro.randrange(2)
         op = {"id": i, "client": client, "kind": "eval", "pipe": pi, "backend": backend, "style": style, "variant": variant}
+        if style == "eval" and ro.random() < 0.25:
+            op["extra"] = True
         if style in ("eval", "transform", "rshift") and ro.random() < 0.3:
             # the very pipeline object that ex() uses (built on data()/descr() captures) applied to explicitly passed data
             op["cap"] = True
@@ -355,6 +357,12 @@ def _run(scn, log: EventLog, stats: Stats):
             res = None
             plan.enabled = abort_at is not None
             plan.arm(abort_at)
+            if style == "eval" and op.get("extra"):
+                # a data_map may carry tables the pipeline does not mention, and the same frame under two names
+                others = [n for n in scn["tables"] if n not in tabs]
+                inputs = dict(inputs)
+                inputs["unused_table"] = pool[f"{prefix}{(others or tabs)[0]}:{1 - variant}"]
+                inputs["alias_of_" + tabs[0]] = inputs[tabs[0]]
             try:
                 if style == "eval":
                     res = o.eval(inputs) if backend == "pandas" else o.eval(inputs, data_model=real_pl)
